@@ -148,8 +148,8 @@ func r13b(c *core.Ctx) {
 		if call, ok := o.(*ssa.Call); ok && core.CallName(call) == "crypto/tls.Server" {
 			// the TLS edge: only after a successful handshake
 			hs := false
-			for _, hcall := range core.Calls(hc) {
-				if strings.HasSuffix(core.CallName(hcall), "tls.Conn).HandshakeContext") && core.NilAt(hcall.(ssa.Value), nb.Block()) != core.NonNil {
+			for _, hcall := range handshakeCallsIn(hc) {
+				if core.NilAt(hcall.(ssa.Value), nb.Block()) != core.NonNil {
 					hs = true
 				}
 			}
